@@ -658,6 +658,34 @@ fn run_cli(args: &[String]) -> i32 {
         "replay" if args.len() >= 2 => cmd_replay(&args[1]),
         "trace" if args.len() >= 4 => cmd_trace(&args[1..]),
         "dump" if args.len() >= 3 => cmd_dump(&args[1..]),
+        "explain" if args.len() >= 2 => {
+            // every violation of every property along a recorded case, with the event log
+            let s = std::fs::read_to_string(&args[1]).unwrap_or_default();
+            let v: Value = serde_json::from_str(&s).unwrap_or(Value::Null);
+            match serde_json::from_value::<Case>(v["case"].clone()) {
+                Ok(Case::Staking { swarm, ops }) => {
+                    let (known, _) = load_known();
+                    let opts = StakingOpts { force_no_oracle: false, keep_events: true, known };
+                    let (_, ev) = run_staking(&swarm, Some(&ops), None, &opts, v["property"].as_str().unwrap_or(""));
+                    for l in &ev.events {
+                        println!("{}", l);
+                    }
+                    for x in &ev.viol {
+                        println!("VIOL step {} [{} {}] stop={} {}", x.step, x.prop, x.clause, x.stop, x.msg);
+                    }
+                    0
+                }
+                Ok(c) => {
+                    let (known, _) = load_known();
+                    let ev = eval_case(&c, "", &known);
+                    for x in &ev.viol {
+                        println!("VIOL step {} [{} {}] {}", x.step, x.prop, x.clause, x.msg);
+                    }
+                    0
+                }
+                Err(_) => 2,
+            }
+        }
         "events" if args.len() >= 2 => {
             let s = std::fs::read_to_string(&args[1]).unwrap_or_default();
             let v: Value = serde_json::from_str(&s).unwrap_or(Value::Null);
